@@ -114,8 +114,10 @@ def render_pmodule(root: Path, tasks: list[dict], version: int) -> str:
         for j, p in enumerate(t.get("pprods", [])):
             args.append(f"pd{j}: Annotated[Path, DirectoryNode(root_dir={_rd(p)}, pattern='*.in'), Product]")
             pdir = f"pd{j}"
-        args += [f"d{j}: Path = ROOT / 'f{d}.txt'" for j, d in enumerate(t["deps"])]
-        args += [f"p{j}: Annotated[Path, Product] = ROOT / 'f{p}.txt'" for j, p in enumerate(t["prods"])]
+        def _fp(n):      # a file inside a pattern directory named as an ordinary path
+            return f"ROOT / 'pat{(n - 10000) // 100}' / 'g{(n - 10000) % 100}.in'" if 10000 <= n < 20000 else f"ROOT / 'f{n}.txt'"
+        args += [f"d{j}: Path = {_fp(d)}" for j, d in enumerate(t["deps"])]
+        args += [f"p{j}: Annotated[Path, Product] = {_fp(p)}" for j, p in enumerate(t["prods"])]
         lines += decos
         lines.append(f"def task_t{i}_({', '.join(args)}):")
         dl = "[" + ", ".join(f"d{j}" for j in range(len(t["deps"]))) + "]"
